@@ -7,7 +7,8 @@ Nothing here looks at the Lean model or at the agent's code: the reference is co
 
 
 def tkey(d):
-    return [d['path'], d['line'], d['tag']]
+    # a method / function tracepoint has no line of its own: the agent's FunctionLocation reports -1
+    return [d['path'], -1 if d.get('kind') in ('method', 'function') else d['line'], d['tag']]
 
 
 class Reference:
@@ -45,12 +46,12 @@ def driver_ops(ops):
         if k == 'poll':
             rt = op['rt'] if 'rt' in op else (0 if op.get('nc') else 1)
             out.append({'op': 'poll', 'rt': rt, 'ts': op.get('ts', 0), 'hash': op.get('hash', ''),
-                        'tps': [{'path': t['path'], 'line': t['line'], 'tag': t['tag'],
+                        'tps': [{'path': t['path'], 'line': tkey(t)[1], 'tag': t['tag'],
                                  'interp': t.get('interp', True), 'conv': t.get('conv', True)} for t in op['tps']]})
         elif k == 'pollFail':
             out.append({'op': 'pollFail', 'base': bool(op.get('base'))})
         elif k == 'register':
-            out.append({'op': 'register', 'path': op['path'], 'line': op['line'], 'tag': op['tag'],
+            out.append({'op': 'register', 'path': op['path'], 'line': tkey(op)[1], 'tag': op['tag'],
                         'interp': op.get('interp', True)})
         else:
             out.append({kk: v for kk, v in op.items() if kk in ('op', 'handle', 'i', 'k', 'text')})
@@ -171,6 +172,11 @@ class Sched:
     def tp(self, prefix='s', bad=0.0):
         path, line = self.rng.choice(LOCS)
         d = {'path': path, 'line': line, 'tag': self.fresh_tag(prefix), 'args': dict(self.rng.choice(ARGS))}
+        q = self.rng.random()
+        if q < 0.2:
+            d['kind'] = 'method'        # several kinds of location in one file, in every order
+        elif q < 0.32:
+            d['kind'] = 'function'
         r = self.rng.random()
         if r < bad:
             d['interp'] = False
@@ -208,7 +214,8 @@ class Sched:
                    'tps': [self.tp('u') for _ in range(self.rng.randint(0, 2))]})
 
     def fail(self):
-        self.emit({'op': 'pollFail', 'base': False, 'how': self.rng.choice(['rpc', 'garbage'])})
+        self.emit({'op': 'pollFail', 'base': False, 'how': self.rng.choice(
+            ['rpc', 'garbage', 'noargs', 'keyerror', 'rpc_noargs', 'badstr', 'oserror'])})
 
     def malformed(self):
         tps = [self.tp('m') for _ in range(self.rng.randint(1, 3))]
